@@ -66,6 +66,20 @@ CLAIMED.update({
    note=CACHING_NOTE),
 })
 
+FS_NOTE = ("Trusted: TLC; the interposition layer (builtins.open / os.replace / os.rename / os.remove / os.unlink wrapped by vf/fsx.py) sees every file "
+           "operation of the stores; rename atomicity and 'what has been flushed is on disk' (no power-loss semantics); process death is simulated from "
+           "the on-disk state before each operation.")
+CLAIMED.update({
+ "C11": dict(engine="filestore", cat="fault_enumeration", ref="6.C11",
+   technique="TLC: FileStore.tla (staged write protocol, a failure or process death at every file operation, consecutive writers) checked exhaustively; fault enumeration on the real stores with every file operation interposed, each operation trace validated by FileStoreTrace.tla which also compares the on-disk state with the protocol state",
+   text="For each of the five stores and the staged_write / staged_write_path helpers, str and pathlib paths, small and large values: an OSError and a KeyboardInterrupt are injected at every file operation of a write, process death is simulated before every operation, a value whose serialisation fails part-way is written; after each, the target must be the complete old or new value, its modified time moved only with the new value, no staging file after an exception, and a further write and read must work. Enumeration is complete for writes of up to 40 file operations and sampled (first/last 6 + 12 seeded) beyond.",
+   note=FS_NOTE),
+ "C12": dict(engine="filestore", cat="exploration", ref="6.C12",
+   technique="Register view of FileStore.tla (read returns the last complete write; modified time None iff absent, monotone) validated by TLC on recorded write/mtime/read/delete sequences of the real stores over explicit and seeded value domains, compared strictly (equal and same type at every level)",
+   text="The TLA+ specification contributes the register / modified-time state machine; breadth over the value domain (every line terminator and control-character class, BMP/astral code points, lone surrogates in JSON, empty and large values, nested JSON, picklable objects, all byte values; encodings None/utf-8/utf-16/utf-32/latin-1; str and pathlib paths; directly and through a MountedStore) comes from an explicit alphabet plus a seeded generator. Encode/decode fidelity over an unbounded domain is not something a model decides, hence 'exploration'.",
+   note=FS_NOTE + " Value domains are finite samples."),
+})
+
 checks = []
 for i in ids:
     if i not in CLAIMED:
@@ -96,6 +110,8 @@ m = {
     "engines": [
         {"name": "engine", "path": "/verif/spec/Engine.tla", "serves_properties": ["C01", "C04", "C06", "C07", "C10", "C17"],
          "kind_free_text": "TLA+ Engine.tla refining RunAbs.tla, checked by TLC; RunAbsTrace.tla monitor over executions of the real code under vf/detsched.py"},
+        {"name": "filestore", "path": "/verif/spec/FileStore.tla", "serves_properties": ["C11", "C12"],
+         "kind_free_text": "TLA+ FileStore.tla (staged write protocol + register) checked by TLC; FileStoreTrace.tla monitor over interposed file-operation traces of the real stores with injected faults"},
         {"name": "caching", "path": "/verif/spec/Caching.tla", "serves_properties": ["C03", "C05", "C08", "C09", "C13", "C14"],
          "kind_free_text": "TLA+ Caching.tla (stale check, physical plan, store histories) checked by TLC; CachingTrace.tla monitor over histories executed on the real library with term-valued harness stores"},
     ],
